@@ -11,10 +11,11 @@ META = dict(
                       'upper-case letters with surrounding blanks; element.X with X of 1-2 symbolic letters; vib_wavenumber / rot_temperature '
                       'repeated 1-3 times (pandas .N suffixes); list.name(.i), dict.name.key, nasa.a_low.i / a_high.i for every i; numeric cells '
                       'symbolic reals, string cells symbolic with surrounding blanks; every preset and every per-mode model class name'),
-    outside_claim=['pandas / openpyxl parsing of the workbook, duplicate-header mangling, sheet names, the comment row (skiprows), ASE atoms columns, '
+    outside_claim=['pandas / openpyxl parsing of the workbook, duplicate-header mangling, sheet names, ASE atoms columns, '
                    'vib_outcar columns', 'ordinary headers containing a special keyword (ambiguous by the documentation)', 'more than 2 rows '
                    '(thermo_data is rebuilt per row)'],
-    stubs=['pandas.read_excel: a frame whose iterrows() yields the rows; an empty cell is NaN'],
+    stubs=['pandas.read_excel: a frame whose iterrows() yields the rows; an empty cell is NaN; in the comment-row group it drops the physical '
+           'rows listed in skiprows (header row = 0), as pandas documents'],
     assumptions=['ordinary headers are upper-case (cannot contain the lower-case special keywords)'],
 )
 
@@ -64,14 +65,46 @@ class Frame:
         raise Escape('frame stub: DataFrame.%s is not modelled' % name)
 
 
-def _read(ctx, rows):
+def _read(ctx, rows, comment_row=None, **call_kw):
+    """comment_row: None = the sheet is modelled from its data rows on (the default skiprows handling is not in play);
+    True / False = the sheet has / has not a comment row under the header row, and pandas.read_excel drops the physical rows
+    whose index (header row = 0) the caller lists in skiprows, as documented"""
     import pmutt.io.excel as ex
     saved = ex.pd.read_excel
-    ex.pd.read_excel = lambda io=None, **kw: Frame([Row(r) for r in rows])
+
+    def read_excel(io=None, skiprows=None, header=0, **kw):
+        if comment_row is None:
+            return Frame([Row(r) for r in rows])
+        physical = ([[('__comment__', 'units / comments', False)]] if comment_row else []) + list(rows)
+        skip = set(skiprows) if skiprows is not None and not isinstance(skiprows, int) else (set(range(1, skiprows + 1)) if skiprows else set())
+        keep = [r for k, r in enumerate(physical) if (k + 1) not in skip]
+        return Frame([Row(r) for r in keep])
+    ex.pd.read_excel = read_excel
     try:
-        return ex.read_excel(io='dir/book.xlsx')
+        return ex.read_excel(io='dir/book.xlsx', **call_kw)
     finally:
         ex.pd.read_excel = saved
+
+
+def h_comment_row(ctx):
+    """sheets with and without the comment row under the header: every data row gives a record, the comment row never does"""
+    v0, v1 = ctx.real('v0', -1e3, 1e3), ctx.real('v1', -1e3, 1e3)
+    rows = [[('name', 'first', False), ('value', v0, False)], [('name', 'second', False), ('value', v1, False)]]
+
+    def ok(recs):
+        return len(recs) == 2 and recs[0].get('name') == 'first' and recs[1].get('name') == 'second'
+    recs = _read(ctx, rows, comment_row=True)
+    ctx.true('comment row present, default call: two records, the comment row is not one of them', ok(recs))
+    if ok(recs):
+        ctx.eq('comment row present: value of row 0', recs[0]['value'], v0)
+        ctx.eq('comment row present: value of row 1', recs[1]['value'], v1)
+    for sk in ([], None):
+        recs = _read(ctx, rows, comment_row=False, skiprows=sk)
+        ctx.true('no comment row, skiprows=%r: every data row gives a record (the first one is not dropped)' % (sk,), ok(recs))
+        if ok(recs):
+            ctx.eq('no comment row, skiprows=%r: value of row 0' % (sk,), recs[0]['value'], v0)
+    recs = _read(ctx, rows, comment_row=True, skiprows=[1])
+    ctx.true('comment row present, skiprows=[1] given explicitly: two records', ok(recs))
 
 
 def _present(ctx, tag):
@@ -319,5 +352,6 @@ def groups(tier):
     for which in ('a_low', 'a_high'):
         g.append(dict(name='nasa/%s' % which, harness=h_nasa, params=dict(which=which), no_validate=True, max_paths=1000))
     g.append(dict(name='model-names', harness=h_models, no_validate=True))
+    g.append(dict(name='comment-row', harness=h_comment_row, no_validate=True))
     g.append(dict(name='formula+zero-cells+long-lists', harness=h_formula, no_validate=True))
     return g
